@@ -219,7 +219,8 @@ def requestPure (H : Heap) (c : Nat) (args : Args) : Except Err Sent :=
   | some (_, impl, as), some hd, some pd, some body =>
     match applyAll as { path := args.path, headers := copyHeaders hd } with
     | .error e => .error e
-    | .ok ra => .ok (assemble impl ra args.method pd body (respFold as (decodeResp args.raw args.resp)))
+    | .ok ra => .ok (assemble impl ra args.method (finalParams as pd) (finalBody as body)
+        (respFold as (decodeResp args.raw args.resp)))
   | _, _, _, _ => .error .keyError
 
 /-- everything a request does to the heap -/
@@ -280,15 +281,15 @@ theorem request_spec (H : Heap) (c : Nat) (args : Args) :
           simp only [hget]
           have era : ({ path := ra.path, headers := ra.headers } : RA) = ra := rfl
           rw [era]
-          cases hg : (assemble impl ra args.method pd body
+          cases hg : (assemble impl ra args.method (finalParams as pd) (finalBody as body)
               (respFold as (decodeResp args.raw args.resp))).genId with
           | none =>
             simp only []
-            refine ⟨?_, ⟨?_, ?_, ?_, ?_, ?_, ?_, Or.inr ⟨finalHeaders impl ra body, ?_⟩, Or.inl ?_⟩, ?_⟩
+            refine ⟨?_, ⟨?_, ?_, ?_, ?_, ?_, ?_, Or.inr ⟨finalHeaders impl ra (finalBody as body), ?_⟩, Or.inl ?_⟩, ?_⟩
             all_goals first | rfl | simp
           | some g =>
             simp only []
-            refine ⟨?_, ⟨?_, ?_, ?_, ?_, ?_, ?_, Or.inr ⟨finalHeaders impl ra body, ?_⟩,
+            refine ⟨?_, ⟨?_, ?_, ?_, ?_, ?_, ?_, Or.inr ⟨finalHeaders impl ra (finalBody as body), ?_⟩,
               Or.inr ⟨cn.impl, impl, connView_impl hv, ?_⟩⟩, ?_⟩
             all_goals first | rfl | simp
 
